@@ -193,4 +193,41 @@ Section Facts.
          | |- exists qp qh, buffer ?h = _ /\ _ => post_nil (@nil bytes)
          end.
   Qed.
+
+  (* ---------------------------------------------------------------- how handle_data moves between the classes *)
+  Definition coreW (h : handler) : Prop :=
+    hq h = [] /\ pq h = [] /\ plugin h = None /\ is_complete (request h) = false /\
+    orc_calls h = 0 /\ ocd h = [] /\ exc h = None.
+  Definition coreS (h : handler) : Prop :=
+    plugin h <> None /\ is_complete (request h) = true /\ orc_calls h = 1 /\ hq h = [] /\ exc h = None.
+
+  Ltac fin := hsimpl; eauto; try congruence; try discriminate; try reflexivity; try (intro; discriminate).
+  Ltac core_solve :=
+    hsimpl; rewrite ?is_nil_app_cons; hsimpl;
+    repeat match goal with
+           | H : negb _ = true |- _ => apply negb_true_iff in H
+           | H : negb _ = false |- _ => apply negb_false_iff in H
+           end;
+    try congruence;
+    first
+      [ solve [left; repeat split; fin]
+      | solve [right; left; repeat split; fin]
+      | solve [right; right; left; repeat split; fin]
+      | solve [right; right; right; left; repeat split; fin]
+      | solve [right; right; right; right; eexists; repeat split; fin] ].
+
+  Lemma hd_from_W h d : coreW h ->
+    let '(h', r) := hd h d in
+    (r = HOk false /\ coreW h' /\ buffer h' = buffer h) \/
+    ((r = HOk true \/ r = HOk false) /\ coreS h') \/
+    (r = HOk true /\ (exists x, hq h' = [x]) /\ exc h' = None) \/
+    (r = HOk true /\ hq h' = [] /\ exc h' <> None) \/
+    (exists e, r = HErr (Other e) /\ coreS h').
+  Proof.
+    intros (Hq & Hp & Hpl & Hc & Ho & Hd & He). unfold coreW, coreS.
+    hd_cases h d.
+    all: try (rewrite Hc in *; discriminate).
+    all: hsimpl; rewrite ?Hq, ?Hp, ?Ho, ?Hd, ?He, ?Hpl; cbn [app]; hsimpl.
+    all: core_solve.
+  Qed.
 End Facts.
